@@ -193,8 +193,10 @@ class Framer(tasking.Tasker):
         for frame in self.frameNames.values():
             # named clone is registered under this framer's name so unless pruned
             # as well its name stays taken and this framer can not be cloned again
+            # original aux is also in .auxes but belongs to house not this framer
             prunables = [aux for aux in frame.auxes
-                         if aux.insular or self.auxes.get(aux.tag) is aux]
+                         if aux.insular or
+                            (not aux.original and self.auxes.get(aux.tag) is aux)]
             for aux in prunables:
                 aux.prune()
                 frame.auxes.remove(aux)
